@@ -455,9 +455,40 @@ func fromEntryHeap(t *Term) bool {
 	}
 	a := t.Args[0]
 	for a.Op == "store" {
+		// a write that may alias the address read is acceptable only if what it stored is itself an entry-state value
+		if d, ok := provablyDistinct(a.Args[1], t.Args[1]); !(ok && d) && !entryValue(a.Args[2]) {
+			return false
+		}
 		a = a.Args[0]
 	}
+	if a.Op == "select" && len(a.Args) == 2 {
+		// a map's value array: mapval[m][k] with the map itself from the entry state
+		inner := a.Args[0]
+		for inner.Op == "store" {
+			if d, ok := provablyDistinct(inner.Args[1], a.Args[1]); !(ok && d) {
+				return false
+			}
+			inner = inner.Args[0]
+		}
+		return strings.HasPrefix(inner.Op, "zz_h0_mapval_") && entryRooted(a.Args[1])
+	}
 	return strings.HasPrefix(a.Op, "zz_h0_") && entryRooted(t.Args[1])
+}
+
+// entryValue: a stored value that denotes only entry-state objects (nil, or pointers / slices rooted in the entry state)
+func entryValue(x *Term) bool {
+	switch x.Sort {
+	case "Ptr":
+		return x.Op == "zz_nilptr" || entryRooted(x)
+	case "Slice":
+		if x.Op == "zz_mkslice" {
+			return x.Args[0].Op == "zz_nilptr" || entryRooted(x.Args[0])
+		}
+		return fromEntryHeap(x)
+	case "Iface", "Fn":
+		return false
+	}
+	return true
 }
 
 // entryRooted: the address is built only from parameters, globals and values read from the entry heap
